@@ -299,6 +299,47 @@ def history(cfg, case, out):
         cross = [("wrong-key:other-session", d) for d in atk.genuine("s2c", b.addr, n=6, pick="any")]
         atk.present(cross, "client", a, per_tick=2)
 
+        # ---------- phase: a victim in the middle of its handshake (the server holds a half-open connection WITH a session key for it)
+        #            while well-formed hellos arrive from more than a thousand other addresses: nothing those addresses send may
+        #            take the victim's connection away before its own timeout
+        if heavy:
+            w.phase = "half-open-under-flood"
+            w.net.heal(0.002)
+            hv = w.add_client()
+            held_ch = []
+            hold_ch = lambda direction, addr, d, info: (held_ch.append(d) or "drop") if (direction == "c2s" and addr == hv.addr and len(d) >= 20 and d[12] == 3) else None
+            w.net.filters.append(hold_ch)
+            hv.connect()
+            w.step(4)
+            tc0 = w.ctxt.temp_connections.get(hv.addr)
+            hello_d = atk.genuine("c2s", hv.addr, n=1, pick="any", types=(1,))
+            if tc0 is not None and hello_d and held_ch:
+                t_fl = w.clock.now
+                for k in range(1100):
+                    w.offer_server(("10.20.%d.%d" % (k >> 8, k & 255), 3000 + case), hello_d[0], "forged:hello-flood")
+                    if k % 200 == 199:
+                        w.step()
+                atk.injected.inc("server|forged", 1100)
+                w.step(2)
+                run.c.inc("c01_half_open_under_flood")
+                still = w.ctxt.temp_connections.get(hv.addr)
+                if still is not tc0 and w.clock.now - t_fl < 1.5:
+                    run.report("C01", "half-open-connection-removed-by-unauthenticated-datagrams", "after 1100 hellos from other addresses the victim's half-open connection (which holds its session key) is %s, %.2fs into its handshake" % (
+                        "gone" if still is None else "another object", w.clock.now - t_fl), {"origin": "forged:hello-flood", "role": "server", "phase": w.phase})
+                w.net.filters.remove(hold_ch)
+                w.net.inject("c2s", hv.addr, held_ch[0], "honest")
+                w.step(4)
+                if hv.addr not in w.ctxt.connections and w.clock.now - t_fl < 1.5:
+                    run.report("C01", "half-open-connection-removed-by-unauthenticated-datagrams", "the victim's genuine challenge response was not honoured after the flood (client status %s, server has %s)" % (
+                        hv.udp.conn.status, "a half-open entry" if hv.addr in w.ctxt.temp_connections else "nothing"), {"origin": "forged:hello-flood", "role": "server", "phase": w.phase})
+                else:
+                    run.c.inc("c01_handshake_completed_despite_flood")
+            elif hold_ch in w.net.filters:
+                w.net.filters.remove(hold_ch)
+            hv.udp.disconnect()
+            w.step(5)
+            w.remove_client(hv)
+            w.step(int(2.2 / w.dt))              # the flood's half-open entries expire
         # ---------- phase: a forged datagram with the victim's NEXT sequence number is queued at the server just ahead of the
         #            genuine one (same address, same tick): the genuine one is still processed
         w.phase = "queued-ahead-of-genuine"
@@ -454,7 +495,7 @@ def finish(tier, seed, results):
                          "inj:server|truncation", "inj:server|header-rewrite-crc", "inj:server|wrong-key", "inj:client|wrong-key",
                          "inj:server|reflection", "inj:server|random", "c01_continuity_checks", "c01_sessions_survived_silent_phase", "c01_forged_queued_ahead_of_genuine",
                          "c01_genuine_processed_despite_forgery_ahead", "c01_kicked_in_handle_message", "c01_forged_at_kicked_connection", "c01_rewrapped_hello_to_closed_client",
-                         "client_datagrams_from_foreign_address"], inconclusive)
+                         "client_datagrams_from_foreign_address", "c01_handshake_completed_despite_flood"], inconclusive)
     cov = {
         "evaluations": m["evaluations"],
         "distinct_nontrivial": m["distinct_nontrivial"],
